@@ -236,7 +236,7 @@ func JudgeC15(c *Ctx, h *History, obs []*Obs) ([]Violation, error) {
 			// derived from the two spellings lexically
 			sfx := ""
 			for _, cv := range pred[p] {
-				if (g.Cwd == "symlink" || g.Cwd == "chdir-symlink" || g.Cwd == "symlink-rel") && strings.HasPrefix(cv.OutFile, RootPlaceholder) {
+				if (g.Cwd == "symlink" || g.Cwd == "chdir-symlink" || g.Cwd == "symlink-rel" || g.Cwd == "dotdot-symlink") && strings.HasPrefix(cv.OutFile, RootPlaceholder) {
 					sfx = "/absolute-output-file-spelled-through-other-path-than-cwd"
 				}
 			}
@@ -468,7 +468,7 @@ func CheckC15(c *Ctx) (*Outcome, error) {
 		spec := covSpecs[i]
 		w := spec.World("c15cov")
 		var hs []*History
-		forms := []string{"", "abs", "rel", "abs-slash", "symlink", "sub:svc/conv", "chdir-symlink", "symlink-rel"}
+		forms := []string{"", "abs", "rel", "abs-slash", "symlink", "sub:svc/conv", "chdir-symlink", "symlink-rel", "dotdot-symlink"}
 		if c.Tier != "thorough" {
 			forms = []string{forms[i%len(forms)], forms[(i+3)%len(forms)]}
 		}
@@ -481,7 +481,7 @@ func CheckC15(c *Ctx) (*Outcome, error) {
 			}
 			hs = append(hs, &History{World: w, Loc: rng.IntN(len(locNames)), Ops: []Op{genOp(g)}})
 		}
-		if i%6 == 0 {
+		if i%6 == 0 || len(spec.LineDirectives) > 0 {
 			// the user's environment carries build flags that make the go command hand out
 			// instrumented copies of the sources (GOFLAGS=-cover)
 			g := &GenSpec{Plan: planIdentity(), Spec: spec, Expect: "ok", Env: map[string]string{"GOFLAGS": "-cover"}}
